@@ -9,7 +9,7 @@ from vp import lab as labmod, explore as X, content as C
 from vp.lab import Config
 
 LEVEL = "model_checking"
-BUDGET = {"quick": 240, "thorough": 2400}
+BUDGET = {"quick": 360, "thorough": 2400}
 
 
 def configs(tier):
@@ -55,7 +55,9 @@ def variants(cfg, tier):
     if cfg.tag != "hole" or tier == "thorough":
         v += [("copy-partly-synced", [("cp", "d1", "a", d2, "a"), ("cmd", "sync", "-B", "1")]),
               ("killed-after-parity", [("write", "d1", "n", 1025, 0), ("cmd", "sync", "--test-kill-after-sync")]),
-              ("rehash-pending", [("cmd", "rehash")])]
+              ("rehash-pending", [("cmd", "rehash")]),
+              # a silent error sits in a synced block (the next sync may repair it on the fly while it handles other changes)
+              ("silent-error", [("silent", "d1", "s", 0), ("silent", "d1", "anchor", 0)])]
     return v
 
 
@@ -63,6 +65,7 @@ FILE_OPS = [
     ("write", "d1", "a", 5000, 1), ("write", "d1", "a", 1024, 2), ("write", "d1", "n", 1025, 0),
     ("write", "d2", "n2", 2500, 0), ("rm", "d1", "a"), ("rm", "d2", "b"), ("mv", "d1", "a", "d1", "m"),
     ("cp", "d1", "a", "d2", "a"), ("write", "d2", "b", 1025, 1), ("dupdata", "d1", "a", "d2", "x"), ("rm", "d2", "a"),
+    ("silent", "d1", "a", -1),
 ]
 CMDS = [
     ("cmd", "sync"), ("cmd", "sync", "-B", "1"), ("cmd", "sync", "-S", "1", "-B", "1"), ("cmd", "sync", "-F"),
@@ -74,9 +77,10 @@ CMDS = [
     ("cmd", "fix", "-S", "0", "-B", "1"), ("cmd", "fix", "-S", "1", "-B", "2"), ("cmd", "check", "-B", "1"),
     ("cmd", "sync", "--test-run", "rm {root}/d1/a"),
     ("cmd", "sync", "--test-run", "touch -d @1500000000 {root}/d2/b"),
+    ("cmd", "sync", "-E"),
 ]
 CMDS_THOROUGH = [("cmd", "fix", "-e"), ("cmd", "fix", "-m"), ("cmd", "scrub", "-p", "new"), ("cmd", "check"),
-                 ("cmd", "sync", "-h", "-B", "1")]
+                 ("cmd", "sync", "-h", "-B", "1"), ("cmd", "sync", "-E", "--test-kill-after-sync"), ("cmd", "sync", "-N", "-B", "1")]
 
 
 def alphabet(tier, cfg=None):
